@@ -12,6 +12,8 @@ structure DiscAt where
   inConnectFail : Bool := false
   inOnConnect : Bool := false
   inOnDisconnect : Bool := false
+  /-- disconnect() is called from another thread while loop_forever() sleeps in the back-off wait that follows -/
+  inWait : Bool := false
   deriving DecidableEq, Repr
 
 /-- scripted outcome of one connection attempt (times relative to the socket being opened) -/
@@ -28,7 +30,7 @@ inductive Obs where
   | onConnectFail (at_ : Nat)
   | onConnect (rc : Nat) (at_ : Nat)
   | onDisconnect (rc : Nat) (at_ : Nat)
-  | userDisconnect (at_ : Nat)      -- the application called disconnect() (inside a callback)
+  | userDisconnect (at_ : Nat)      -- the application called disconnect() (inside a callback, or during a wait)
   | ret (rc : Int)
   | raised          -- the first attempt failed and retry_first_connection is off: OSError leaves loop_forever()
   | scriptEnd       -- the script is exhausted (the harness stops the run here)
@@ -59,10 +61,23 @@ def delayNext (c : Cfg) (d : Option Nat) : Nat :=
   | none => c.minDelay
   | some x => Gen.backoffMinMax (x * Gen.backoffFactor) c.maxDelay
 
-def reconnectWait (c : Cfg) (s : St) : St :=
+def reconnectWait (c : Cfg) (s : St) (inWait : Bool := false) : St :=
   let d := delayNext c s.delay
   let s := { s with delay := some d }
-  if s.disconnected then s else { s with now := s.now + d * 1000 }
+  if s.disconnected then s
+  else if inWait then
+    -- disconnect() from another thread during the wait: noticed when the current 1-second slice is over
+    let s := { s with now := s.now + (min d 1) * 1000 }
+    ({ s with disconnected := true }).emit (.userDisconnect s.now)
+  else { s with now := s.now + d * 1000 }
+
+/-- the `disconnect()` flags of a scripted outcome -/
+def Outcome.disc : Outcome → DiscAt
+  | .refuse d => d
+  | .eof _ d => d
+  | .connackRefused _ _ d => d
+  | .accepted _ _ d => d
+  | .downgrade _ => {}
 
 /-- phase 2 of `loop_forever` from the point where an attempt is about to be made (or, with `conn = some o`, where a
 connection with scripted outcome `o` has just been opened at time `s.now`) -/
@@ -118,7 +133,7 @@ def run (c : Cfg) : (fuel : Nat) → (script : List Outcome) → (first : Bool) 
         -- _loop() finds no socket and returns CONN_LOST; then the usual exit test / back-off / retry
         if s.disconnected ∨ !c.rof then s.emit (.ret 7)
         else
-          let s := reconnectWait c s
+          let s := reconnectWait c s d.inWait
           if s.disconnected then s.emit (.ret 7) else run c fuel rest false s
     | .downgrade t =>
       if s.proto = 4 ∧ c.rof then
@@ -141,7 +156,7 @@ def run (c : Cfg) : (fuel : Nat) → (script : List Outcome) → (first : Bool) 
       let (s, rc, _) := connLife c s o
       if s.disconnected ∨ !c.rof then s.emit (.ret (if s.disconnected ∧ rc = 0 then 7 else rc))
       else
-        let s := reconnectWait c s
+        let s := reconnectWait c s o.disc.inWait
         if s.disconnected then s.emit (.ret rc) else run c fuel rest false s
 
 /-- enough fuel: every step consumes a script item or turns a `downgrade` into a `connackRefused` -/
